@@ -96,16 +96,23 @@ Print Assumptions C19_event_paths_strict.
    basenames, arbitrary read cuts, ticks, emits), any emitter flavour / filter / recursive flag / fault plan, any
    initial tree with valid basenames: the reader invariant holds in every reachable state, every InotifyEvent ever
    produced has a rooted path, and EVERY path of EVERY delivered event is empty or rooted (the root's own parent is
-   never reported: the kernel sends no named-less record whose mask reports a parent, and the buffer pairs only
-   IN_MOVED_FROM / IN_MOVED_TO records, which always carry names) *)
-Theorem C19_pipeline_paths : forall P, c_root (pc_reader P) <> [] -> last_is_sep (c_root (pc_reader P)) = false ->
-  forall w s0 h s obs,
+   never reported: the kernel sends no name-less record whose mask reports a parent, and the buffer pairs only
+   IN_MOVED_FROM / IN_MOVED_TO records, which always carry names).  No hypothesis on the root is needed here: the
+   model's file system is keyed by the root's spelling and its entries have valid basenames, so construction succeeds
+   only on a non-empty root that does not end in '/' (C19_pipeline_root). *)
+Theorem C19_pipeline_root : forall P w s,
+  fs_names_ok (w_fs w) -> pinit P w = Some s ->
+  c_root (pc_reader P) <> [] /\ last_is_sep (c_root (pc_reader P)) = false.
+Proof. exact pinit_root_normal. Qed.
+Print Assumptions C19_pipeline_root.
+
+Theorem C19_pipeline_paths : forall P w s0 h s obs,
   fs_names_ok (w_fs w) -> (forall o, In (AOp o) h -> op_names_ok o) ->
   pinit P w = Some s0 -> prun P s0 h [] = Done (s, obs) ->
   path_inv (c_root (pc_reader P)) (p_r s) /\
   (forall i x, In (i, x) (p_tbl s) -> rooted (c_root (pc_reader P)) (r_path x)) /\
   (forall e, In e (p_out s) -> ev_ok (c_root (pc_reader P)) e).
-Proof. exact pipeline_paths. Qed.
+Proof. exact pipeline_paths_any. Qed.
 Print Assumptions C19_pipeline_paths.
 
 (* ================================================================== TYPE law *)
@@ -161,17 +168,35 @@ Theorem C19_event_agree : forall full rec wp content it e v rel,
 Proof. exact event_path_agree. Qed.
 Print Assumptions C19_event_agree.
 
+(* ---- name and type together: every non-empty path VALUE of every event of one queue_events() call on an item as the
+   pipeline delivers it is the watch path followed by the valid relative names of an entry, with the watch's type -
+   which is exactly the value the polling snapshot has for that entry *)
+Theorem C19_event_value : forall full rec wp content it,
+  pv_bytes wp <> [] -> last_is_sep (pv_bytes wp) = false ->
+  match it with
+  | Single x => raw_ok (pv_bytes wp) x
+  | Pair f t => below (pv_bytes wp) (r_path f) /\ below (pv_bytes wp) (r_path t)
+  end ->
+  (forall p, wf_tree (content p) = true) ->
+  forall e v, In e (fst (typed_emit full rec wp content it)) -> (v = te_src e \/ v = te_dest e) ->
+  pv_bytes v <> [] ->
+  exists rel, forallb valid_name rel = true /\
+              v = tagged (pv_tag wp) (pv_bytes wp ++ relsuffix rel) /\ v = pjoins wp rel.
+Proof. exact typed_emit_value. Qed.
+Print Assumptions C19_event_value.
+
 (* ================================================================== stated, not proved *)
 (* The NAME law for a root spelled with a trailing '/' (or "/" itself): paths are then [joins root rel], which is not
-   root ++ "/n1/..."; the parent of a top-level entry is the root with the slashes stripped.  The reader / emitter
-   halves above are proved for normalised roots only; the oracle covers the other spellings. *)
+   root ++ "/n1/..."; the parent of a top-level entry is the root with the slashes stripped.  Everything above is
+   proved for roots that do not end in '/' (absolute or relative); the other spellings are covered by the oracle and,
+   for the TYPE law and the inotify/polling agreement, by C19_type / C19_agree, which hold for every root. *)
 Definition C19_pipeline_any_root_full : Prop :=
   forall P w s0 h s obs,
   fs_names_ok (w_fs w) -> (forall o, In (AOp o) h -> op_names_ok o) ->
   pinit P w = Some s0 -> prun P s0 h [] = Done (s, obs) ->
   forall e, In e (p_out s) -> forall p, (p = ev_src e \/ p = ev_dest e) -> p <> [] ->
     (exists rel, forallb valid_name rel = true /\ p = joins (c_root (pc_reader P)) rel) \/
-    p = rstrip_sep (c_root (pc_reader P)) \/ p = dirname (c_root (pc_reader P)).
+    p = rstrip_sep (c_root (pc_reader P)).
 
 (* ================================================================== non-vacuity *)
 Definition rt_ : bytes := [47; 119]%N.                (* "/w" *)
